@@ -27,6 +27,14 @@ seeds 0..k-1 only for gauss / numpy based sampling the RNG seam cannot enumerate
                recorded and replayed (getReplay and simulationToBytes/FromBytes, original and
                recompiled scenario) under two OTHER RNG paths: same trajectory, actions,
                records, termination
+  chains       a simulation produced by a replay is a simulation: from recorded runs, breadth first
+               over sequences (depth 3 / 4) of {replay the current encoding for fewer / the same /
+               more steps} x {divergence checking off / on} x {first / last RNG path for a continued
+               run}, alternately through simulationFromBytes on the recompiled scenario (scene decoded
+               and re-encoded) and simulate(replay=getReplay()); states with equal (encoding, steps,
+               flag) are expanded once.  Each step: the replay completes, reproduces the run it was
+               encoded from (whole view for equal length, common prefix otherwise), and an
+               equal-length replay re-encodes to the very bytes it was replayed from
   divergence   recordings with enableDivergenceCheck; replay perturbing each dynamic
                property component of each object at each step by +-delta:
                DivergenceError <=> |delta| > tolerance, both signs
@@ -79,6 +87,9 @@ FAST_TIMEOUT = 1.0  # first look; a decode exceeding it is re-run with DECODE_TI
 REPLAY_FAULT_RECORDINGS_DIV = {"quick": 1, "thorough": 2}  # same, for recordings with divergence data (long, homogeneous)
 REPLAY_FAULT_RECORDINGS = {"quick": 2, "thorough": 30}  # per program: the first recordings (enumeration order) get every replay fault
 DIV_SHARDS = {"quick": 4, "thorough": 12}  # slices of the perturbation points of a divergence program (parallelism only)
+CHAIN_DEPTH = {"quick": 3, "thorough": 4}  # generations of replay-of-replay explored from a recorded run
+CHAIN_ROOTS = {"quick": 1, "thorough": 3}  # recordings per program (enumeration order) that are roots of chains
+CHAIN_MAX_STATES = 3000
 SET_ORDER_CAP = {"quick": 120, "thorough": 720}  # compilations per program under different set iteration orders
 FRESH_PROCESS_HASHSEEDS = {"quick": (1,), "thorough": (1, 2, 3)}  # PYTHONHASHSEED of the fresh-process compilations (the run itself uses 0)
 HANG_REPEATS = 2  # after this many confirmed hangs at the same (offset, edit) of a program, later scenes skip that edit
@@ -392,7 +403,7 @@ def merge_stats(tot, s):
             for x in v:
                 if x not in cur:
                     cur.append(x)
-        elif k == "max_len":
+        elif k in ("max_len", "chain_max_generation"):
             tot[k] = max(tot.get(k, 0), v)
         else:
             tot[k] = tot.get(k, 0) + v
@@ -1102,6 +1113,10 @@ class C18Simulation(dyn.ScriptedSimulation):
         self.rt_values = 0
         super().__init__(scene, simulator, **kwargs)
 
+    def replaySampledValue(self, dist, values):
+        self.rt_replayed = getattr(self, "rt_replayed", 0) + 1
+        return super().replaySampledValue(dist, values)
+
     def recordSampledValue(self, dist, values):
         out = self._replayOut
         a = out.stream.tell() if out else 0
@@ -1155,7 +1170,9 @@ def run_sim(simulator, scene, maxSteps, **kw):
 
 
 def new_dyn_stats():
-    return {"cpu_s": 0.0, "recordings": 0, "recordings_fault_enumerated": 0, "rejected_runs": 0, "replays": 0, "replays_equal": 0, "replay_rng_points": 0, "rt_values": 0,
+    return {"chain_roots": 0, "chain_steps": 0, "chain_states": 0, "chain_states_merged": 0, "chain_max_generation": 0, "chain_reencodes_compared": 0,
+            "chain_later_generations_with_draws": 0, "chain_later_generations_nontrivial_bytes": 0, "chain_continued_runs": 0, "cpu_chains_s": 0.0,
+            "cpu_s": 0.0, "recordings": 0, "recordings_fault_enumerated": 0, "rejected_runs": 0, "replays": 0, "replays_equal": 0, "replay_rng_points": 0, "rt_values": 0,
             "replay_bytes": 0, "sim_encodings": 0,
             "perturbations": 0, "diverged": 0, "not_diverged": 0, "perturb_expected_div": 0, "perturb_expected_ok": 0,
             "div_props": {}, "continue_after": 0,
@@ -1262,6 +1279,12 @@ def check_dynamic(item):
                     st["recordings"] += 1
                     st["rt_values"] += sim.rt_values
                 check_recording(prog, scenA, scenB, simulator, origin, scene, path, sim, log, st, viol, tier, only, shard, ordinal)
+                # replay chains from this recording
+                want_chain = only is not None and only.get("what") == "chain"
+                if shard[0] == 0 and (want_chain or (only is None and ordinal <= CHAIN_ROOTS[tier] and not (tier == "quick" and div))):
+                    c1 = time.process_time()
+                    check_chains(prog, scenA, scenB, simulator, origin, scene, path, sim, log, st, viol, tier, only if want_chain else None)
+                    st["cpu_chains_s"] += time.process_time() - c1
             if stats.capped:
                 raise HarnessError(f"{name}: run exploration capped")
     res["wall"] = time.time() - t0
@@ -1415,6 +1438,148 @@ def check_replay_faults(prog, simulator, scene, replay, spans, view0, st, viol, 
                 st["rc_escape"] += 1
                 viol.append((f"replay-corruption-{_outcome_sig(out)}:{kind}", f"replay {replay.hex()} with byte {off} ({kind}) {replay[off]:#04x} -> {nb:#04x}: simulate(replay=...) raised {out[1:]} "
                              f"instead of SerializationError / DivergenceError / completing\n{text}", _dcase(prog, what="replay-corruption", off=off, edit=ename, **base)))
+
+
+# ---------------------------------------------------------------------------------
+# replay CHAINS: a simulation produced by a replay is a simulation; its encoding must replay
+# ---------------------------------------------------------------------------------
+
+CHAIN_KS = ("shorter", "equal", "longer")
+
+
+def chain_ops():
+    """Alphabet of one chain step: replay the current encoding for k steps (k <, =, > the steps of
+    the run that was encoded), with divergence checking off / on for the replaying run; a run
+    continued past the end of its recording draws fresh values along the first / last RNG path."""
+    ops = []
+    for kc in CHAIN_KS:
+        for div in (False, True):
+            for which in ((0, -1) if kc == "longer" else (-1,)):
+                ops.append((kc, div, which))
+    return ops
+
+
+def chain_root(scenA, scene, sim, log, steps, div):
+    return {"view": sim_view(sim, log, full=True), "replay": sim.getReplay(), "simdata": scenA.simulationToBytes(sim), "n": steps, "div": div,
+            "scene": scene, "gen": 0, "ops": [], "draws": sim.rt_values, "time": sim.currentTime}
+
+
+def chain_step(scenB, simulator, state, op):
+    """Apply one op to a state: (outcome, new state or None).  Even generations are replayed through
+    simulationFromBytes on the recompiled scenario (the scene is decoded, and re-encoded afterwards),
+    odd ones through simulate(replay=getReplay()) on the scene of the state."""
+    kc, div, which = op
+    k = state["n"] + {"shorter": -1, "equal": 0, "longer": 1}[kc]
+    if k < 1:
+        return None, None
+    kw = {"enableDivergenceCheck": div}
+    if state["gen"] % 2 == 0:
+        out, _ = _from_bytes(scenB, state["simdata"], simulator, k, which, kw)
+    else:
+        out, _ = replay_outcome(simulator, state["scene"], k, state["replay"], which, **kw)
+    if out[0] != "sim":
+        return out, None
+    sim, log = out[1], out[2]
+    try:
+        simdata = sim.scene.scenario.simulationToBytes(sim)
+    except Exception as e:  # noqa: BLE001
+        return ("escape", type(e).__name__, f"simulationToBytes: {e}"[:160]), None
+    new = {"view": sim_view(sim, log, full=True), "replay": sim.getReplay(), "simdata": simdata, "n": k, "div": div, "scene": sim.scene,
+           "gen": state["gen"] + 1, "ops": state["ops"] + [list(op)], "draws": max(sim.rt_values, getattr(sim, "rt_replayed", 0)), "time": sim.currentTime}
+    return out, new
+
+
+def _prefix_view(view, t):
+    """What a run cut at time t must share with the full run."""
+    return {"trajectory": view["trajectory"][: t + 1], "actions": view["actions"][:t]}
+
+
+def judge_chain_step(prog, state, op, out, new, st, viol, base):
+    """Oracles for one transition parent --op--> new."""
+    idx, name, feat, text, mode, steps, div0 = prog
+    kc, div, which = op
+    case = lambda what: _dcase(prog, what="chain", ops=state["ops"] + [list(op)], oracle=what, **base)  # noqa: E731
+    how = f"generation {state['gen']} ({' -> '.join('/'.join(map(str, o)) for o in state['ops']) or 'the original run'}; {state['n']} steps, {len(state['replay'])} replay bytes) replayed {kc} " \
+          f"({state['n'] + {'shorter': -1, 'equal': 0, 'longer': 1}[kc]} steps, divergence checking {'on' if div else 'off'}, RNG path {'first' if which == 0 else 'last'})"
+    st["chain_steps"] += 1
+    if new is None:
+        viol.append((f"chain-replay-{_outcome_sig(out)}:{kc}:{feat}", f"{how} did not complete: {out}\nreplay={state['replay'].hex()}\n{text}", case("completes")))
+        return False
+    pv, nv = state["view"], new["view"]
+    t = min(state["time"], new["time"])
+    # (b) the replay reproduces the run it was encoded from (as far as both go)
+    if kc == "equal":
+        same = pv == nv
+        d = view_diff(pv, nv)
+    else:
+        same = _prefix_view(pv, t) == _prefix_view(nv, t) and (kc != "shorter" or new["time"] == min(state["n"] - 1, state["time"]))
+        d = [k for k in ("trajectory", "actions") if _prefix_view(pv, t)[k] != _prefix_view(nv, t)[k]] or ["time"]
+    if not same:
+        viol.append((f"chain-replay-mismatch:{kc}:{feat}", f"{how} differs from the run that was encoded in {d}: encoded run {[pv[k] for k in d if k in pv][:1]!r:.300} replay {[nv[k] for k in d if k in nv][:1]!r:.300}\n"
+                     f"replay={state['replay'].hex()}\n{text}", case("reproduces")))
+        return False
+    # (a) re-encoding an equal-length faithful replay gives the bytes it was replayed from
+    if kc == "equal" and div == state["div"]:
+        st["chain_reencodes_compared"] += 1
+        if new["replay"] != state["replay"]:
+            viol.append((f"chain-reencode-mismatch:equal:{feat}", f"{how} reproduced the run, but its own encoding differs: getReplay() = {new['replay'].hex()} ({len(new['replay'])} bytes), "
+                         f"replayed from {state['replay'].hex()} ({len(state['replay'])} bytes)\n{text}", case("idempotent")))
+            return False
+        if new["simdata"] != state["simdata"]:
+            viol.append((f"chain-reencode-mismatch:equal-scene:{feat}", f"{how}: simulationToBytes differs from the bytes it was replayed from: {new['simdata'].hex()} vs {state['simdata'].hex()}\n{text}", case("idempotent")))
+            return False
+    if state["gen"] >= 1 and new["draws"] > 0:
+        st["chain_later_generations_with_draws"] += 1
+        if len(new["replay"]) > codec.REPLAY_HEADER_LEN:
+            st["chain_later_generations_nontrivial_bytes"] += 1
+    if kc == "longer" and new["time"] > state["time"]:
+        st["chain_continued_runs"] += 1
+    return True
+
+
+def check_chains(prog, scenA, scenB, simulator, origin, scene, path, sim, log, st, viol, tier, only=None):
+    """Breadth-first over op sequences up to CHAIN_DEPTH from one recorded run; states with the same
+    (encoding, steps, divergence flag) are expanded once."""
+    idx, name, feat, text, mode, steps, div = prog
+    base = {"origin": _origin_json(origin), "path": path}
+    root = chain_root(scenA, scene, sim, log, steps, div)
+    st["chain_roots"] += 1
+    if only is not None:
+        # re-run exactly one op sequence
+        state = root
+        for i, op in enumerate(only["ops"]):
+            op = tuple(op)
+            out, new = chain_step(scenB, simulator, state, op)
+            if i == len(only["ops"]) - 1:
+                judge_chain_step(prog, state, op, out, new, st, viol, base)
+            elif new is None:
+                return
+            state = new
+        return
+    frontier = [root]
+    seen = {(root["replay"], root["n"], root["div"])}
+    ops = chain_ops()
+    for depth in range(CHAIN_DEPTH[tier]):
+        nxt = []
+        for state in frontier:
+            for op in ops:
+                out, new = chain_step(scenB, simulator, state, op)
+                if out is None:
+                    continue
+                ok = judge_chain_step(prog, state, op, out, new, st, viol, base)
+                if not ok or new is None:
+                    continue  # a broken generation is reported once; nothing is built on top of it
+                key = (new["replay"], new["n"], new["div"])
+                if key in seen:
+                    st["chain_states_merged"] += 1
+                    continue
+                seen.add(key)
+                nxt.append(new)
+                st["chain_states"] += 1
+                st["chain_max_generation"] = max(st["chain_max_generation"], new["gen"])
+        frontier = nxt
+        if len(seen) > CHAIN_MAX_STATES:
+            raise HarnessError(f"{name}: more than {CHAIN_MAX_STATES} chain states")
 
 
 VECTOR_PROPS = ("position", "velocity", "angularVelocity")
@@ -1578,7 +1743,12 @@ def run(ctx):
             "behaviour-visible globals compared": tot["globals_compared"], "decoded scenes simulated": tot["decoded_simulations"],
             "recordings replayed on another compilation": tot["cross_replays"], "requirement re-checks": tot["requirement_rechecks"],
             "fresh-process decodes": tot["fresh_process_decodes"],
+            "replay-chain steps": dtot["chain_steps"], "chain generations >= 2 with run-time draws": dtot["chain_later_generations_with_draws"],
+            "chain generations >= 2 whose re-encoded replay is more than a header": dtot["chain_later_generations_nontrivial_bytes"],
+            "equal-length re-encodings compared": dtot["chain_reencodes_compared"], "replays continued past their recording": dtot["chain_continued_runs"],
         }
+        if dtot["chain_max_generation"] < 2:
+            raise HarnessError("vacuous: no replay chain reached generation 2")
         for k, v in guards.items():
             if v == 0:
                 raise HarnessError(f"vacuous: {k} = 0")
@@ -1590,7 +1760,7 @@ def run(ctx):
             raise HarnessError(f"vacuous: width-boundary values never sampled in a scene: {missing}")
     walls.sort(reverse=True)
     ctx.cov.update(
-        evaluations=decodes + dtot["replays"] + dtot["perturbations"] + dtot["replay_corruptions"] + dtot["replay_truncations"] + tot["value_codec"],
+        evaluations=decodes + dtot["chain_steps"] + dtot["replays"] + dtot["perturbations"] + dtot["replay_corruptions"] + dtot["replay_truncations"] + tot["value_codec"],
         distinct_nontrivial=tot["corr_scene_changed"] + dtot["diverged"],
         rule="all programs of gen/c18_gen.py (value atoms x slots + object-level programs; dynamic programs) x ALL scenes (every RNG outcome of generate(); "
         "5-point lattice per continuous draw; seeds 0..k-1 for Normal / mutate / mesh regions) x {round trip (original + recompiled scenario), every proper prefix, "
@@ -1607,7 +1777,9 @@ def run(ctx):
         corruptions_escape=tot["corr_escape"], corruption_noop_edits_skipped=tot["corr_noop"], header_corruptions=tot["header_corruptions"],
         foreign_decodes=tot["foreign"], foreign_refused=tot["foreign_refused"], option_variant_decodes=tot["option_variants"], option_variants_refused=tot["option_refused"],
         decodes=decodes, decodes_refused=refused, decodes_scene=produced,
-        cpu_s={"static_and_fresh_process": round(tot["cpu_s"], 1), "dynamic": round(dtot["cpu_s"], 1), "of_which_other_compilations": round(tot["cpu_other_compilations_s"], 1)},
+        cpu_s={"static_and_fresh_process": round(tot["cpu_s"], 1), "dynamic": round(dtot["cpu_s"], 1), "of_which_other_compilations": round(tot["cpu_other_compilations_s"], 1),
+               "of_which_replay_chains": round(dtot["cpu_chains_s"], 1)},
+        replay_chains={k: dtot[k] for k in dtot if k.startswith("chain_")},
         set_order_compilations=tot["set_order_compilations"], set_order_choice_points=tot["set_order_choice_points"], set_order_capped_programs=tot["set_order_capped_programs"],
         other_compilation_decodes=tot["cross_decodes"], other_compilation_comparisons=tot["cross_comparisons"], behaviour_globals_compared=tot["globals_compared"],
         requirement_rechecks=tot["requirement_rechecks"], decoded_scene_simulations=tot["decoded_simulations"], recordings_replayed_on_other_compilation=tot["cross_replays"],
@@ -1650,9 +1822,9 @@ def replay(ctx, case):
         viol = [v for v in r["violations"] if v[2].get("type") == case["type"] and v[2].get("value") == case["value"] and v[2].get("cut") == case.get("cut") and v[2].get("off") == case.get("off") and v[2].get("edit") == case.get("edit")]
     elif kind == "dynamic":
         prog = (0, case["name"], case["feature"], case["text"], case["mode"], case["steps"], case["div"])
-        only = {"origin": case["origin"], "path": case["path"], "what": case.get("what"), "pert": case.get("pert")}
+        only = {"origin": case["origin"], "path": case["path"], "what": case.get("what"), "pert": case.get("pert"), "ops": case.get("ops")}
         r = check_dynamic((prog, "thorough", only))
-        keys = ("what", "pert", "off", "edit", "cut", "simcut")
+        keys = ("what", "pert", "off", "edit", "cut", "simcut", "ops", "oracle")
         viol = [v for v in r["violations"] if all(v[2].get(k) == case.get(k) for k in keys)]
     elif kind == "other-compilation":
         prog = _as_prog(case)
